@@ -245,7 +245,9 @@ def strips_trailing_blanks(pattern, flags):
     eol = ('at', 'AT_END_LINE')
     opt_cr = ('rep', 0, 1)
     if tuple(tail) == (eol,):
-        return True
+        # `[ \t]+$` alone: with CR LF line ends (a cleartext message keeps the line ends it was transported with) the CR shields the
+        # blanks in front of it, so `abc \t\r\n` would be signed as it is - RFC 4880 7.1 removes them (seeded change C02-w6mut1)
+        return False
     return len(tail) == 2 and tail[1] == eol and tail[0][0] == 'rep' and tail[0][1:3] == (0, 1) and tail[0][4] == (('set', frozenset([13])),) and opt_cr is not None
 
 
